@@ -55,3 +55,29 @@ _T = {
 for k, (t, n) in _T.items():
     PROPS[k]["text"] = t
     PROPS[k]["note"] = n
+
+# what each check does NOT decide (goes verbatim into coverage.not_covered of the evidence)
+NOT_COVERED = {
+ "C01": "termination of the search as a whole (measure argument on paper: DESIGN B.4/C01; the reference search has a 30 s watchdog on short texts); exceptions inside the regex C engines and inside user-supplied scorers; __repr__/__str__ of logged values",
+ "C02": "nothing beyond the assumptions: every producer of a value is under contract; the regex group ranges are recomputed from the pattern constants each run",
+ "C03": "that the contracted candidate wins the ranking on every text (A-rank; sampled by the bridge)",
+ "C04": "that the contracted candidate wins the ranking on every text (A-rank; sampled by the bridge)",
+ "C05": "that the contracted candidate wins the ranking on every text (A-rank; sampled by the bridge)",
+ "C06": "ranking (A-rank): one open known finding ('3 in the afternoon'); any other text-level failure of the bridge is a violation",
+ "C07": "that the contracted candidate wins the ranking on every text (A-rank; sampled by the bridge)",
+ "C08": "ranking (A-rank): one open known finding ('1 night'); any other text-level failure of the bridge is a violation",
+ "C09": "the resolution clause for arbitrary texts: decided statically only for patterns without unguarded runs across a blank; otherwise bounded (adversarial inert neighbour words, context bridge)",
+ "C10": "'drops every word inside a match the resolution was built from' and invariance of the resolution under hashtags (relational through the regex engine and the ranking): bounded pools only",
+ "C11": "end-to-end equality of resolutions for variants beyond the pool (A-regex + A-rank); code points on which the regex module's Unicode tables and unicodedata disagree are listed as version skew",
+ "C12": "threads; writes through an alias of a module-level object; sets reaching an iteration through a call",
+ "C13": "the real clock (assumed monotone); work done inside a single rule application or a single scorer call",
+ "C14": "IEEE rounding of scores (floats as reals); the trusted contract of list.sort",
+ "C15": "the pre-filter and _regex_stack for arbitrary sizes and the whole search on arbitrary texts (bounded: small sizes; reference closure on short texts for five scorers)",
+ "C16": "vectoriser / fit / predict for arbitrary corpora (bounded: exhaustive small scope against an independent textbook implementation); pickle internals; the shipped model on the bundled corpus (data)",
+ "C17": "the convexity step of the duplication argument (paper, A-analysis); every entry of the bundled dataset (data)",
+ "C18": "every gold string of the bundled dataset (data); injectivity of the text form is a corollary of the round trip, not a separate obligation",
+ "C19": "nothing beyond the assumptions: the registry is checked completely as it stands after import",
+ "C20": "that the contracted candidate wins the ranking on every text (A-rank; sampled by the bridge; excluded by the property: 12:xx directly followed by German 'am <day>')",
+}
+for k, v in NOT_COVERED.items():
+    PROPS[k]["not_covered"] = v
